@@ -418,6 +418,46 @@ def r7_writes_open_the_transaction(ctx, res):
         raise AnalysisError(f'only {n} writing statement variants found in wn/_add.py')
 
 
+def r8_no_callback_after_commit(ctx, res):
+    """the caller's progress handler may raise; inside the transaction that aborts the add/remove and everything is rolled back.
+    A set()/flash()/update() callback placed after the `with connect()` block runs when the transaction is already committed:
+    the call fails although the database has changed.  In _add_lexical_resource and remove no statement that follows the
+    transaction block (in its own or an enclosing block) calls back - only close() in the `finally`."""
+    n = 0
+    for fname in ('_add_lexical_resource', 'remove'):
+        f = ctx.repo.func('_add', fname)
+        withs = [w for w in walk_no_nested(f.node) if isinstance(w, ast.With)
+                 and any(isinstance(it.context_expr, ast.Call) and norm(it.context_expr.func) == 'connect' for it in w.items)
+                 or isinstance(w, ast.With) and any(norm(it.context_expr) == 'conn' for it in w.items)]
+        key = f'callbacks-inside-transaction:{fname}'
+        res.inst(key, f.module.loc(f.node), f'{len(withs)} transaction block(s)')
+        if not withs:
+            raise AnalysisError(f'anchor vanished: the transaction block of _add.{fname}')
+        for w in withs:
+            n += 1
+            node = w
+            after = []
+            while node is not f.node:
+                par = getattr(node, '_parent', None)
+                if par is None:
+                    break
+                for fld in ('body', 'orelse', 'finalbody'):
+                    blk = getattr(par, fld, None)
+                    if isinstance(blk, list) and any(x is node for x in blk):
+                        idx = next(i for i, x in enumerate(blk) if x is node)
+                        if fld != 'finalbody':
+                            after.extend(blk[idx + 1:])
+                node = par
+            for st in after:
+                for c in ast.walk(st):
+                    if isinstance(c, ast.Call) and isinstance(c.func, ast.Attribute) and c.func.attr in ('flash', 'set', 'update') \
+                            and 'progress' in norm(c.func.value).lower():
+                        res.find(key, f.module.loc(c), f'{fname} calls back `{norm(c)[:60]}` after its transaction block: if the handler raises '
+                                                       f'there, the call fails but the database change is already committed')
+    if n < 2:
+        raise AnalysisError('transaction blocks of add/remove not found')
+
+
 RULES = [
     ('C06-R1', r1_one_transaction, 25),
     ('C06-R2', r2_failures_propagate, 1),
@@ -426,4 +466,5 @@ RULES = [
     ('C06-R5', r5_pooled_connection, 2),
     ('C06-R6', r6_no_state_outside_transaction, 40),
     ('C06-R7', r7_writes_open_the_transaction, 30),
+    ('C06-R8', r8_no_callback_after_commit, 2),
 ]
